@@ -1,7 +1,10 @@
 (* iter_row_groups.  Obligations over the Gallina text that translators/readloops.py regenerates from
-   fastparquet/api.py on every run (Gen/GenIter.v, logical root PqGen).  The yield condition is compared with the
-   model's `not df.empty` by computation on the shape of the frame, so an equivalent spelling
-   (`len(df.index) > 0 and len(df.columns) > 0`) still goes through while `len(df) > 1` does not. *)
+   fastparquet/api.py on every run (Gen/GenIter.v, logical root PqGen).
+   The statement is the PROPERTY (every row group that holds rows is delivered once, in order, with exactly its
+   rows and the requested columns; the frames concatenate to the full read), for requests with at least one data
+   column - the region where the property claims something.  The yield condition is evaluated by computation on the
+   shape of the frame, so `not df.empty`, `len(df.index) > 0 and len(df.columns) > 0` and `len(df) > 0` all go
+   through, while `len(df) > 1` (single-row groups dropped) does not. *)
 From Coq Require Import List ZArith Arith Bool Lia.
 From Pq Require Import Base.Bytes Dataset.Read Proofs.ReadProofs.
 From PqGen Require Import GenIter.
@@ -15,43 +18,58 @@ Section GenIterProofs.
   Variable neqb : Name -> Name -> bool.
   Variable rows : D -> list R.
   Variable nrows : D -> nat.
+  Hypothesis deqb_spec : forall a b : D, reflect (a = b) (deqb a b).
+  Notation wf := (wf D R rows nrows).
 
-  Lemma gen_iter_loop_model : forall (h : handle D Name) (o : ropts Name) (sub : list D),
-    iter_loop D R Name deqb neqb rows nrows h o sub =
-    bind (mapM (fun rg => match index_of deqb rg (h_rgs h) with
-                          | None => Fail ValueError
-                          | Some i => bind (getitem_pick h (Z.of_nat i)) (fun h' => to_pandas neqb rows nrows h' o)
-                          end) sub)
-         (fun fs => Ok (filter (fun f => negb (frame_empty f)) fs)).
+  Definition has_rows (d : D) : bool := match rows d with [] => false | _ => true end.
+
+  Lemma gen_iter_loop_spec : forall (h : handle D Name) (o : ropts Name) (ci : list Name * list Name) (sub : list D),
+    wf (h_rgs h) -> incl sub (h_rgs h) ->
+    (forall d, out_columns neqb (with_rgs h [d]) o = Ok ci) -> fst ci <> [] ->
+    iter_loop D R Name deqb neqb rows nrows h o sub
+    = Ok (map (fun d => mk_frame (fst ci) (snd ci) (map Some (rows d))) (filter has_rows sub)).
   Proof.
-    intros h o sub. induction sub as [|rg rest IH]; [reflexivity|].
-    cbn [iter_loop mapM]. rewrite IH. clear IH.
-    destruct (index_of deqb rg (h_rgs h)) as [i|]; cbn [bind]; [|reflexivity].
-    destruct (getitem_pick h (Z.of_nat i)) as [h1|e]; cbn [bind]; [|reflexivity].
-    destruct (to_pandas neqb rows nrows h1 o) as [df|e]; cbn [bind]; [|reflexivity].
-    destruct (mapM _ rest) as [fs|e]; cbn [bind filter]; [|reflexivity].
-    destruct df as [c ix r]; destruct c, r; reflexivity.
+    intros h o ci sub H Hs Hc Hne. induction sub as [|d sub IH]; [reflexivity|].
+    cbn [iter_loop].
+    destruct (index_of_nth D deqb deqb_spec (h_rgs h) d) as [i [Hi Hn]]; [apply Hs; left; reflexivity|].
+    rewrite Hi. cbn [bind].
+    rewrite (getitem_pick_read D R Name neqb rows nrows h (Z.of_nat i) o H).
+    rewrite (py_pick_nat _ _ _ _ Hn), Hc. cbn [bind].
+    rewrite IH by (intros x Hx; apply Hs; right; exact Hx). cbn [bind filter].
+    unfold has_rows. destruct (fst ci) as [|c cs] eqn:Ec; [contradiction|].
+    destruct (rows d) as [|r rs] eqn:Er; cbn; rewrite ?Er; reflexivity.
   Qed.
 
-  (* GEN: the generator as regenerated from the source is the model's iter_row_groups *)
-  Theorem gen_iter_is_model : forall (h : handle D Name) (o : ropts Name),
-    gen_iter D R Name deqb neqb rows nrows h o = iter_row_groups deqb neqb rows nrows h o.
-  Proof. intros h o. unfold gen_iter, iter_row_groups. apply gen_iter_loop_model. Qed.
+  (* GEN: the generator as regenerated from the source delivers every row group that holds rows once, in order,
+     with exactly its rows and the requested columns *)
+  Theorem gen_iter_spec : forall (h : handle D Name) (o : ropts Name) (ci : list Name * list Name),
+    wf (h_rgs h) -> h_rgs h <> [] -> out_columns neqb h o = Ok ci -> fst ci <> [] ->
+    gen_iter D R Name deqb neqb rows nrows h o
+    = Ok (map (fun d => mk_frame (fst ci) (snd ci) (map Some (rows d))) (filter has_rows (h_rgs h))).
+  Proof.
+    intros h o ci H Hr Hc Hne. unfold gen_iter. apply gen_iter_loop_spec; [exact H|apply incl_refl| |exact Hne].
+    intros d. rewrite <- Hc. rewrite <- (with_rgs_same D Name h) at 2.
+    apply out_columns_nonempty_irrel; [discriminate|exact Hr].
+  Qed.
 
-  (* GEN: hence every non-empty row group is delivered once, in order, with exactly its rows *)
-  Theorem gen_iter_spec :
-    (forall a b : D, reflect (a = b) (deqb a b)) ->
-    forall (h : handle D Name) (o : ropts Name),
-    (forall d, In d (h_rgs h) -> nrows d = length (rows d)) ->
-    gen_iter D R Name deqb neqb rows nrows h o =
-    match h_rgs h with
-    | [] => Ok []
-    | _ => bind (out_columns neqb h o) (fun ci =>
-             Ok (filter (fun f => negb (frame_empty f))
-                        (map (fun d => mk_frame (fst ci) (snd ci) (map Some (rows d))) (h_rgs h))))
-    end.
-  Proof. intros Hd h o H. rewrite gen_iter_is_model. apply iter_spec; assumption. Qed.
+  Theorem gen_iter_no_row_groups : forall (h : handle D Name) (o : ropts Name),
+    h_rgs h = [] -> gen_iter D R Name deqb neqb rows nrows h o = Ok [].
+  Proof. intros h o E. unfold gen_iter. rewrite E. reflexivity. Qed.
+
+  (* GEN: ... and the delivered frames concatenate to the full read of the handle *)
+  Theorem gen_iter_concat_is_full : forall (h : handle D Name) (o : ropts Name) (ci : list Name * list Name) fs,
+    wf (h_rgs h) -> h_rgs h <> [] -> out_columns neqb h o = Ok ci -> fst ci <> [] ->
+    gen_iter D R Name deqb neqb rows nrows h o = Ok fs ->
+    concat (map f_rows fs) = map Some (concat (map rows (h_rgs h))).
+  Proof.
+    intros h o ci fs H Hr Hc Hne Hg. rewrite (gen_iter_spec h o ci H Hr Hc Hne) in Hg. injection Hg as <-.
+    clear. induction (h_rgs h) as [|d l IH]; [reflexivity|].
+    cbn [filter map concat]. unfold has_rows at 1. destruct (rows d) as [|r rs] eqn:Er.
+    - cbn [app]. exact IH.
+    - cbn [map concat f_rows]. rewrite IH, Er, map_app. reflexivity.
+  Qed.
 End GenIterProofs.
 
-Print Assumptions gen_iter_is_model.
 Print Assumptions gen_iter_spec.
+Print Assumptions gen_iter_no_row_groups.
+Print Assumptions gen_iter_concat_is_full.
